@@ -36,7 +36,7 @@ def random_points(rng: random.Random, n: int, kind: str) -> np.ndarray:
     return np.array(pts) * 0.7
 
 
-def delaunay_mesh(rng: random.Random, n: int, kind: str = "random", smooth: int = 0):
+def delaunay_mesh(rng: random.Random, n: int, kind: str = "random", smooth: int = 0, scale: float = 1.0):
     """A Mesh built without Triangle: scipy Delaunay -> Mesh.from_triangulation."""
     from scipy.spatial import Delaunay
     from tdgl.finite_volume.mesh import Mesh
@@ -46,7 +46,7 @@ def delaunay_mesh(rng: random.Random, n: int, kind: str = "random", smooth: int 
     for attempt in range(40):
         if attempt == 30:
             smooth = 0
-        pts = random_points(rng, n, kind)
+        pts = random_points(rng, n, kind) * scale          # scale: the identities hold on every mesh, whatever its units
         tri = Delaunay(pts)
         simp = tri.simplices
         # drop sliver triangles on the hull (degenerate circumcentres)
